@@ -858,6 +858,16 @@ def _same_terms(a, b):
     return len(a) == len(b) and all((x.concrete and y.concrete and x.v == y.v) or (not x.concrete and not y.concrete and x.v.eq(y.v)) for x, y in zip(a, b))
 
 
+def _same_bytes(I, a, b):
+    """semantic equality of two byte strings under the path condition (forks when both outcomes are feasible)"""
+    if len(a) != len(b): return False
+    if _same_terms(a, b): return True
+    cond = True
+    for x, y in zip(a, b):
+        cond = b_and(cond, int_binop("Eq", x, y))
+    return I.E.branch(cond, "same_bytes")
+
+
 def foreign_call(I, name, a, fr, d):
     st = S()
     E = I.E
@@ -904,7 +914,7 @@ def foreign_call(I, name, a, fr, d):
         msg, sig = deref(a[1]), deref(a[2])
         _log(I, "recover", msg.payload, sig.payload)
         p = sig.payload
-        if p.get("kind") == "sign" and _same_terms(p["msg"], msg.payload):
+        if p.get("kind") == "sign" and _same_bytes(I, p["msg"], msg.payload):
             return st.ok(I, Opaque("PublicKey", dict(of=p["sk"])))      # A1
         if E.choose(2, "recover_ok"):
             return st.ok(I, Opaque("PublicKey", dict(of=None, bytes=_fresh_bytes(I, "pkb", 33))))
